@@ -356,7 +356,7 @@ class Job:
         try:
             self.prepare()
             overrides = {}
-            for attempt in range(4):
+            for attempt in range(6):
                 result = self.run_cbmc(overrides)
                 if result is None:
                     break
@@ -386,7 +386,8 @@ class Job:
                         overrides[name] = min(registry.UNWIND_CAP, cur * 2)
                         changed = True
                 self.res.setdefault("unwind_raised", {}).update(overrides)
-                if not changed or attempt == 3:
+                log("    %s: unwinding assertion failed for %s; bounds raised to %s (attempt %d)" % (self.tag, self.unwind_failed, {n: overrides.get(n) for n in self.unwind_failed}, attempt + 1))
+                if not changed or attempt == 5:
                     self.res["status"] = "unwind"
                     self.res["detail"] = "unwinding assertion still failing at cap: %s" % self.unwind_failed
                     break
@@ -599,7 +600,7 @@ def main():
 
 def drive(pid, prop, a, seed, scratch, t0):
     tier = a.tier
-    specs = [j for j in prop.jobs if (tier == "thorough" or j.tier == "q")]
+    specs = [j for j in prop.jobs if j.tier != "x" and (tier == "thorough" or j.tier == "q")]  # tier "x": kept in the registry for reference, measured out of reach
     if a.only:
         specs = [j for j in specs if a.only in j.harness]
     if not specs:
